@@ -58,7 +58,7 @@ RTREE_MAGIC = 0x2468ACE0
 HEADER_FMT = "IHHQQQHHQQIQ"        # 64 bytes, see Appendix H
 HEADER_FIELDS = ("magic", "version", "zoomLevels", "chromTreeOffset", "fullDataOffset",
                  "fullIndexOffset", "fieldCount", "definedFieldCount", "autoSqlOffset",
-                 "totalSummaryOffset", "uncompressBufSize")
+                 "totalSummaryOffset", "uncompressBufSize", "extensionOffset")
 RTREE_HEADER_FMT = "IIQIIIIQII"    # 48 bytes
 MAX_TREE_DEPTH = 64                # a legal tree over < 2^64 items is far shallower
 
@@ -402,7 +402,7 @@ def decode(data, bits=False):
         except Exception as e:                  # noqa: BLE001
             _err(img, "zoom directory entry %d: %s" % (i, e))
             break
-        img["zoomDir"].append({"reduction": reduction, "dataOffset": doff, "indexOffset": ioff})
+        img["zoomDir"].append({"reduction": reduction, "reserved": _res, "dataOffset": doff, "indexOffset": ioff})
 
     # -- autoSql ------------------------------------------------------------------------------
     off = hdr["autoSqlOffset"]
